@@ -106,7 +106,12 @@ def run(tier, seed):
         for f, vi in outs:
             if VALUES[vi][0] and VALUES[vi][0] not in src:
                 src += VALUES[vi][0]
-        for f, vi in outs:
+        between = ["", "", "let fb = func (x) => x + 1;\nlet rb = fb(1);\n", "let mb = module {p = 1} => { let q = mod.p; };\nlet ib = mb{};\n",
+                   "let lb = map(func (x) => x, [1, 2]);\n", "let sb = \"v=@{item}\" % 1;\n", "let gb = reduce(func (acc, x) => acc + x, 0, [1, 2]);\n"]
+        for oi, (f, vi) in enumerate(outs):
+            if oi > 0:
+                # what runs between two out statements (nested evaluations of this file's own code) must not matter
+                src += between[(ci + oi) % len(between)]
             src += "out %s %s;\n" % (f, VALUES[vi][1])
         if not outs:
             src += "let x = 1;\n"
@@ -180,7 +185,7 @@ def run(tier, seed):
     cov["evaluations"] = len(cases)
     cov["distinct_nontrivial"] = len(set((tuple(o), p) for _, o, p, _, _ in meta if o))
     cov["rule"] = ("every registered converter (+ an unknown name) x %d value expressions x with/without pre-existing artifacts, "
-                   "files with 0 and 2 out statements; non-trivial = at least one out statement" % len(VALUES))
+                   "files with 0 and 2 out statements (with plain statements, function calls, module instantiations, callbacks or format expressions between the two); non-trivial = at least one out statement" % len(VALUES))
     cov["generator_distribution"] = stats
     cov["converters"] = convs
     cov["samples"] = [meta[0][4], meta[len(meta) // 2][4], meta[-1][4]]
